@@ -270,8 +270,15 @@ def check(prop, tier, nworkers, keep, deadline):
             prop, tier, m["inputs"], m["execs"], m["choice_points"], len(m["outcomes"]), m["nontrivial"], m["exhaustive"], wall, info["build_s"]))
         for c in m["caps"]:
             print("mc: cap: " + c)
+        shown = 0
         for ln in out_lines:
+            if ln.startswith("VIOLATION"):
+                shown += 1
+            if shown > 12 and not ln.startswith("KNOWN-FINDING"):
+                continue
             print(ln)
+        if shown > 12:
+            print("mc: ... %d more violation signatures not shown (all replay files are under %s)" % (shown - 12, rdst))
         if m["execs"] == 0:
             die("no execution was run")
         code = 1 if new_v else 0
